@@ -108,6 +108,25 @@ pub fn inputs_for(cfg: &Cfg, a: &Analysis, ch: &mut Chooser, which: Which) -> Ve
             }
         }
     }
+    // a few long sentences (deep trees): "token sequences of any length"
+    for k in 0..3 {
+        let choices: Vec<u16> = (0..40).map(|_| ch.next()).collect();
+        if let Some(t) = cfg::random_derivation_deep(cfg, &heights, &choices, [400, 1200, 2500][k], 1500) {
+            let mut leaves = vec![];
+            t.leaves(&mut leaves);
+            if leaves.len() > 64 && leaves.len() <= 4000 {
+                let s: Vec<u16> = leaves.iter().map(|(t, _)| *t).collect();
+                if which != Which::C02 && !s.is_empty() {
+                    // and a damaged copy
+                    let mut m = s.clone();
+                    let at = ch.pick(m.len());
+                    m.remove(at);
+                    set.insert(m);
+                }
+                set.insert(s);
+            }
+        }
+    }
     if nt > 0 && which != Which::C02 {
         // mutants and prefixes of sentences
         for s in sentences.iter().take(16) {
@@ -156,11 +175,13 @@ pub enum Expect {
 
 /// Reference verdict for one input; Err = the two references disagree (harness problem, never a violation).
 pub fn expectation(cfg: &Cfg, a: &Analysis, all_productive: bool, input: &[u16]) -> Result<Expect, String> {
-    let e = cfg::earley(cfg, &a.sets, input);
+    // Earley is cubic in the worst case: long inputs are judged by the reference LR(1) driver alone
+    let long = input.len() > 200;
+    let e = if long { cfg::EarleyResult { accepted: false, dead_at: None } } else { cfg::earley(cfg, &a.sets, input) };
     let lr = cfg::drive(cfg, a.lr1.start, &a.lr1_tables, input);
     match lr {
         Parse::Accept(tree) => {
-            if !e.accepted {
+            if !long && !e.accepted {
                 return Err(format!("LR(1) reference accepts {input:?}, Earley does not"));
             }
             let mut leaves = vec![];
@@ -172,10 +193,10 @@ pub fn expectation(cfg: &Cfg, a: &Analysis, all_productive: bool, input: &[u16])
             Ok(Expect::Accept(tree))
         }
         Parse::Error(ix) => {
-            if e.accepted {
+            if !long && e.accepted {
                 return Err(format!("Earley accepts {input:?}, LR(1) reference does not"));
             }
-            if all_productive && e.dead_at != ix {
+            if !long && all_productive && e.dead_at != ix {
                 return Err(format!("on {input:?} the Earley viable-prefix index is {:?}, the LR(1) reference stops at {ix:?}", e.dead_at));
             }
             Ok(Expect::Reject(ix))
@@ -464,7 +485,7 @@ fn table_level_test(raw: &RawGrammar, which: Which, st: &mut Stats) -> Result<()
     let all_productive = a.sets.productive.iter().all(|b| *b);
     let sh = cfg::shape(&g.cfg, &a.sets);
     let canon = cfg::canon(&g.cfg);
-    for inp in &inputs {
+    for inp in inputs.iter().filter(|i| i.len() <= 200) {
         let case = || json!({"source": g.text, "failing_input": inp, "level": "tables read from the emitted text"});
         let ea = cfg::earley(&g.cfg, &a.sets, inp);
         let want_ix = if all_productive {
